@@ -47,6 +47,36 @@ func VxC08_Choose() {
 	}
 }
 
+// VxC08_ChooseLarge: beyond the exact range Choose stays positive and symmetric for every n up to
+// 1000 and every k (lgamma and exp uninterpreted: exp > 0, congruence), so an integer fast path that
+// overflows, or a fold of k that loses the symmetry, shows up; the 1e-10 accuracy itself is outside.
+// C08: "Choose(n,k) is the binomial coefficient - ... within 1e-10 relative up to n=1000, 0 for k<0 or k>n, symmetric in k and n-k".
+//
+//vx:mode R
+//vx:solver z3
+//vx:timeout 60000
+//vx:bound any 21 <= n <= 1000 and any int k (symbolic)
+//vx:outside the value of Choose for n > 20 (exp of lgamma differences: no SMT theory); n > 1000
+//vx:assume exp > 0; lgamma, exp: congruence only
+func VxC08_ChooseLarge() {
+	n, k := vx.Int("n"), vx.Int("k")
+	vx.Assume(vx.And(n >= 21, n <= 1000))
+	c := Choose(n, k)
+	if k < 0 || k > n {
+		vx.Cover("outside")
+		vx.Assert(c == 0, "Choose is 0 for k < 0 or k > n (n > 20)")
+		vx.Assert(math.IsNaN(Lchoose(n, k)), "Lchoose is NaN out of range (n > 20)")
+		return
+	}
+	vx.Assert(c > 0, "Choose(n,k) is positive for 0 <= k <= n")
+	vx.Assert(vx.Close(Choose(n, n-k), c, 1e-10, 0), "Choose is symmetric in k and n-k (n > 20)")
+	if k == 0 || k == n {
+		vx.Assert(c == 1 && Lchoose(n, k) == 0, "Choose(n,0) = Choose(n,n) = 1, Lchoose 0 (n > 20)")
+	} else {
+		vx.Assert(vx.Close(math.Exp(Lchoose(n, k)), c, 1e-10, 0), "Lchoose is the logarithm of Choose (n > 20)")
+	}
+}
+
 // VxC08_Sign: Sign returns -1, 0, 1 or NaN.
 //
 //vx:mode FP
